@@ -6,11 +6,11 @@ import (
 	"go/ast"
 	"go/parser"
 	"go/token"
-	"strconv"
 	"go/types"
 	"os"
 	"path/filepath"
 	"sort"
+	"strconv"
 	"strings"
 
 	"golang.org/x/tools/go/packages"
@@ -25,7 +25,7 @@ type Program struct {
 	Fset   *token.FileSet
 	Pkgs   []*packages.Package
 	Prog   *ssa.Program
-	SSAPkg map[string]*ssa.Package // by import path
+	SSAPkg map[string]*ssa.Package  // by import path
 	Funcs  map[string]*ssa.Function // by canonical name (see funcKey)
 	Repo   string
 	// file hashes of non-contract files (tag on) for the tag-diff check
